@@ -365,8 +365,18 @@ impl<'db> FormattingInfo<'db> {
                             &self.format_string_source[..brace_source_pos
                                 .map_or(self.format_string_source.len(), |pos| pos + 1)],
                         ));
-                        let origin =
-                            TextSpan::new_with_width(start, TextWidth::from_str(&argument));
+                        // When the `{` comes from an escape sequence there is no literal brace
+                        // in the source and the computed position lies after the string; it must
+                        // at least stay inside the file (diagnostic rendering asserts that).
+                        let file_end = self
+                            .macro_ast
+                            .as_syntax_node()
+                            .ancestors_with_self(builder.db)
+                            .last()
+                            .map_or(start, |root| root.span(builder.db).end);
+                        let end =
+                            start.add_width(TextWidth::from_str(&argument)).min(file_end);
+                        let origin = TextSpan::new(start.min(end), end);
                         self.append_formatted_arg(
                             builder,
                             &mut ident_count,
